@@ -7,7 +7,8 @@ import Pcore.Model.Object
                                  typeParameters(true)                 → `typeParams`
                                  IsParameterized                      → `isParameterized`
     types/objectvalue.go         typedObject.valuesFromHash           → `bindParams` (every type parameter whose NAME is a key of
-                                                                        the hash with a value of `Optional[T]` is bound; the
+                                                                        the hash with a value of `Optional[T]` OTHER THAN UNDEF
+                                                                        (fix de95e71) is bound; the
                                                                         instance then has the type `T[name => value, …]`, an
                                                                         objectTypeExtension)
                                  attributeSlice.Initialize            → `newPosX` (a non-empty positional construction on a
@@ -32,6 +33,14 @@ structure PObj where
 
 /-- typedObject.valuesFromHash, the part after PositionalFromHash: `va` = the positional values, `es` = the hash -/
 def bindParams (t : OType) (es : List (String × Val)) (va : List Val) : List (String × Val) :=
+  if va.isEmpty then [] else
+  (typeParams t).filterMap (fun q =>
+    match es.lookup q.1 with
+    | some v => if v != .undef && inst (.opt q.2) v then some (q.1, v) else none
+    | none => none)
+
+/-- … before the fix de95e71: an explicit undef bound the parameter (to undef) -/
+def bindParamsBefore (t : OType) (es : List (String × Val)) (va : List Val) : List (String × Val) :=
   if va.isEmpty then [] else
   (typeParams t).filterMap (fun q =>
     match es.lookup q.1 with
